@@ -27,14 +27,19 @@ type retryCase struct {
 	// A append, Ac append with a cancelled context, Ad append with an expired deadline,
 	// S<n> save offset n for "sub", Sc<n> / Sd<n> the same with a cancelled / expired context,
 	// R close+reopen, L another connection to the same file starts a write transaction and
-	// keeps it open (calls made meanwhile cannot write), U it rolls back
+	// keeps it open (calls made meanwhile cannot write), U it rolls back, B a ReadStream from
+	// the oldest offset that the consumer abandons after its first event
 	Ops []string `json:"ops"`
-	// Opts: the store is opened with a metrics hook (bit 0) and a logger (bit 1)
+	// Opts: the store is opened with a metrics hook (bit 0), a logger (bit 1), a stream
+	// batch size of 2 (bit 2)
 	Opts int `json:"store_options,omitempty"`
 }
 
 func (r retryCase) String() string {
 	o := []string{"", " +metrics-hook", " +logger", " +metrics-hook+logger"}[r.Opts&3]
+	if r.Opts&4 != 0 {
+		o += " +stream-batch-size-2"
+	}
 	return fmt.Sprintf("retry%v%s", r.Ops, o)
 }
 
@@ -64,6 +69,9 @@ func (rc retryCase) open(path string) (*sqlite.SQLiteStore, error) {
 	}
 	if rc.Opts&2 != 0 {
 		opts = append(opts, sqlite.WithLogger(nopLogger{}))
+	}
+	if rc.Opts&4 != 0 {
+		opts = append(opts, sqlite.WithStreamBatchSize(2))
 	}
 	return sqlite.New(path, opts...)
 }
@@ -172,6 +180,11 @@ func runRetryCase(rc retryCase) (out []string) {
 			}
 		case op == "U":
 			unlock()
+		case op == "B":
+			for _, err := range st.ReadStream(bg, eventbus.OffsetOldest) {
+				_ = err
+				break
+			}
 		case op[0] == 'A':
 			ctx := ctxOf((op + " ")[1])
 			o, err := st.Append(ctx, &eventbus.Event{Type: "t", Data: json.RawMessage(fmt.Sprintf(`{"i":%d}`, i+1)), Timestamp: time.Unix(int64(i), 0)})
@@ -252,6 +265,27 @@ func retryCases() []retryCase {
 		}
 		rec([]string{}, false)
 	}
+	// streams the consumer walks away from, with and without a stream batch size
+	small := []string{"A", "S1", "B", "R", "Ac"}
+	for _, opts := range []int{0, 4} {
+		var rec func(cur []string)
+		rec = func(cur []string) {
+			hasB := false
+			for _, o := range cur {
+				hasB = hasB || o == "B"
+			}
+			if hasB {
+				l = append(l, retryCase{Ops: append([]string{}, cur...), Opts: opts})
+			}
+			if len(cur) == 5 {
+				return
+			}
+			for _, a := range small {
+				rec(append(cur, a))
+			}
+		}
+		rec([]string{})
+	}
 	return l
 }
 
@@ -262,7 +296,7 @@ func runRetries(c *h.Check) {
 		}
 		hasFail := false
 		for _, o := range rc.Ops {
-			hasFail = hasFail || o == "L" || (len(o) > 1 && (o[1] == 'c' || o[1] == 'd'))
+			hasFail = hasFail || o == "L" || o == "B" || (len(o) > 1 && (o[1] == 'c' || o[1] == 'd'))
 		}
 		if !hasFail {
 			continue // histories without a failing call are the crash enumeration's subject
